@@ -1619,15 +1619,15 @@ def find_optimal(
         float
             The cost achieved with these values.
     """
-    arg_best, best_cost = None, float("inf")
+    arg_best, best_cost = [], float("inf")
     if mode == "max":
-        arg_best, best_cost = None, -float("inf")
+        arg_best, best_cost = [], -float("inf")
     for value in variable.domain:
         assignment[variable.name] = value
         cost = assignment_cost(assignment, constraints)
 
         # Take into account variable cost, if any
-        if hasattr(variable, "cost_for_value"):
+        if hasattr(variable, "cost_for_val"):
             cost += variable.cost_for_val(value)
 
         if cost == best_cost:
